@@ -18,6 +18,7 @@ func VH_C10() {
 	logger.SetLogger(vlog{})
 	T, E := vf.Param("T", 2), vf.Param("E", 2)
 	kl2, qkl, maxTs := vf.Param("KL2", 0), vf.Param("QKL", 1), byte(vf.Param("MAXTS", 9))
+	klmask := vf.Param("KLMASK", 0) // bit n set: the n-th entry (in flush order) has a 2-byte user key
 	dir := vf.Dir()
 	lm := &levelManager{dir: dir, l0TargetNum: 4, ratio: 10, dataBlockSize: vf.Int("blk", 0, 64), logger: vlog{}}
 	var all []vent
@@ -27,7 +28,7 @@ func VH_C10() {
 		var kvs []types.Entry
 		for i := 0; i < E; i++ {
 			kl := 1
-			if n < kl2 {
+			if n < kl2 || (klmask>>uint(n))&1 == 1 {
 				kl = 2
 			}
 			n++
